@@ -392,8 +392,18 @@ func registerFmt(e *engine) {
 				case b.Kind() == types.Int:
 					var h int
 					holders[i], natives[i] = &h, &h
+				case b.Kind() == types.Int32:
+					var h int32
+					holders[i], natives[i] = &h, &h
 				default:
 					m.unsupported("fmt.Sscanf operand type " + b.String())
+				}
+			case *types.Slice:
+				if eb, ok := b.Elem().Underlying().(*types.Basic); ok && eb.Kind() == types.Uint8 {
+					var h []byte
+					holders[i], natives[i] = &h, &h
+				} else {
+					m.unsupported("fmt.Sscanf operand type " + el.String())
 				}
 			default:
 				m.unsupported("fmt.Sscanf operand type " + el.String())
@@ -409,6 +419,10 @@ func registerFmt(e *engine) {
 				*p = *h
 			case *int:
 				*p = *h
+			case *int32:
+				*p = *h
+			case *[]byte:
+				*p = bytesToValues(*h)
 			}
 		}
 		if err != nil {
